@@ -754,3 +754,50 @@ Corollary static_unconditional_run thr d g F fuel s q cert e al :
 Proof.
   intros. unfold Prog.run. apply (static_unconditional thr g F fuel s q cert e al (init_st d)); auto.
 Qed.
+
+(* ---- (b) the command line *)
+From Crusta Require Import Spec.IoSpec Model.Cli Proofs.ReadersProofs Proofs.CliProofs Proofs.CliE2E Proofs.CliE2EFiles.
+
+Theorem cli_unconditional thr d fuel o inst i q s al F :
+  1 <= thr -> view_good (i_g i) F -> (forall a, In a al -> In a (args F)) ->
+  validate o inst = inr (i, q, s, al) ->
+  fuel_ok (solver_for q s) (encoder_for (o_problem o) s (o_encoding o))
+          (query_comps (solver_for q s) q (o_cert o) (i_g i) al) fuel ->
+  exists out log, run_traced dpll_oracle thr d fuel o inst = (Exit0 out, log) /\
+    (exists oc, out = render (writer_of (o_reader o)) (i_label i) oc /\ answer_ok q s (o_cert o) F al oc) /\
+    (forall k a, ~ In (k, ESolve a Unknown) log).
+Proof.
+  intros Ht Hvg Hal V Hf.
+  destruct (validate_inr o inst i q s al V) as (_ & _ & Hp & _).
+  destruct (static_unconditional_run thr d (i_g i) F fuel (solver_for q s) q (o_cert o)
+              (encoder_for (o_problem o) s (o_encoding o)) al Ht Hvg
+              (dispatch_supported q s) (dispatch_enc_ok _ q s _ Hp) (dispatch_al_ok q s F al Hal) Hf)
+    as (oc & st' & Hrun & _ & _).
+  pose proof (all_problems_correct dpll_oracle thr d fuel o inst i q s al F dpll_oracle_valid Ht Hvg Hal V) as H.
+  unfold run_traced in *. rewrite V in *. unfold query_prog in *. rewrite Hrun in *.
+  eexists. eexists. split; [reflexivity|exact H].
+Qed.
+
+(* from the BYTES of a well-formed ICCMA'23 file *)
+Theorem cli_iccma_file_unconditional thr d fuel o f eols fnl i q s al :
+  1 <= thr -> iccma_file_ok f -> final_ok (iccma_file_lines f) fnl -> o_reader o = RIccma23 ->
+  let bytes := render_lines (iccma_file_lines f) eols fnl in
+  let F := compact (f_n f) (file_attacks f) in
+  validate o (iccma_input bytes) = inr (i, q, s, al) ->
+  fuel_ok (solver_for q s) (encoder_for (o_problem o) s (o_encoding o))
+          (query_comps (solver_for q s) q (o_cert o) (i_g i) al) fuel ->
+  exists out log, run_traced dpll_oracle thr d fuel o (iccma_input bytes) = (Exit0 out, log) /\
+    (exists oc, out = render WIccma (i_label i) oc /\ answer_ok q s (o_cert o) F al oc) /\
+    (forall k a, ~ In (k, ESolve a Unknown) log).
+Proof.
+  intros Ht Hok Hfin Hr bytes F V Hf.
+  pose proof (file_attacks_bound f Hok) as Hb.
+  pose proof (iccma_input_faithful f eols fnl Hok Hfin) as Hin. fold bytes in Hin.
+  destruct (iccma_al_bound _ _ o _ i q s al Hb Hin V) as [Ei Hal].
+  destruct (iccma_instance_facts (f_n f) (file_attacks f) Hb) as (Hvg & _ & _).
+  assert (Hal' : forall a, In a al -> In a (args F)).
+  { intros a Ha. unfold F, compact. cbn [args]. apply in_seq. specialize (Hal a Ha). lia. }
+  rewrite <- Ei in Hvg.
+  destruct (cli_unconditional thr d fuel o (iccma_input bytes) i q s al F Ht Hvg Hal' V Hf) as (out & log & E & H).
+  exists out, log. split; [exact E|]. rewrite Hr in H. exact H.
+Qed.
